@@ -669,11 +669,16 @@ repsLoop:
 		}
 
 		var counter int
+		signed := []interop.PublicKey{}
 		for _, sig := range sigs[i] {
 			pubsI := Nodes(cid, uint8(i))
 			for iterator.Next(pubsI) {
 				pub := iterator.Value(pubsI).(interop.PublicKey)
+				if containsKey(signed, pub) {
+					continue
+				}
 				if crypto.VerifyWithECDsa(msg, pub, sig, crypto.Secp256r1Sha256) {
+					signed = append(signed, pub)
 					counter++
 					break
 				}
@@ -689,6 +694,15 @@ repsLoop:
 	}
 
 	return true
+}
+
+func containsKey(keys []interop.PublicKey, key interop.PublicKey) bool {
+	for i := range keys {
+		if keys[i].Equals(key) {
+			return true
+		}
+	}
+	return false
 }
 
 // CommitContainerListUpdate commits container list changes made by
